@@ -5,6 +5,7 @@ import (
 
 	"verif/engines/execsim"
 	"verif/engines/loadersim"
+	"verif/engines/parsesim"
 	"verif/engines/schedsim"
 	"verif/sim"
 )
@@ -48,6 +49,17 @@ func init() {
 			schedsim.RunC11(env)
 		default:
 			panic("schedsim: unknown property " + env.Prop)
+		}
+	}
+}
+
+func init() {
+	engines["parsesim"] = func(env *sim.Env) {
+		switch env.Prop {
+		case "C02":
+			parsesim.RunC02(env)
+		default:
+			panic("parsesim: unknown property " + env.Prop)
 		}
 	}
 }
